@@ -222,3 +222,19 @@ def mutate_ws(rng, d):
         if idx:
             cs.insert(rng.choice(idx), rng.choice(EXOTIC_BREAKS))
     return "".join(cs)
+
+
+def slot_sweep():
+    """deterministic edge sweep: every template, every slot kind in it set (everywhere) to every filler of that kind, the
+    other kinds at a plain default"""
+    import re as _re
+    default = {"L": "foo", "T": "alpha", "U": "/u", "C": "a", "B": "x", "I": "", "W": "note", "N": "1", "S": " ", "Q": " ", "K": "\n"}
+    out = []
+    for tpl in SLOT_TEMPLATES:
+        kinds = sorted(set(_re.findall(r"(?<!\{)\{([A-Z])\}", tpl)))
+        for k in kinds:
+            for v in SLOT[k]:
+                vals = dict(default); vals[k] = v
+                d = _re.sub(r"(?<!\{)\{([A-Z])\}", lambda m: vals[m.group(1)], tpl).replace("{{", "{").replace("}}", "}")
+                out.append(d)
+    return out
